@@ -18,6 +18,8 @@ def jobs(tier, seed):
         for wfail in (False, True):
             out.append({"kind": "sched", "scenario": sc, "write_fails": wfail, "gran": "line", "bound": 3 if q else 4})
             out.append({"kind": "sched", "scenario": sc, "write_fails": wfail, "gran": "opcode", "bound": 1 if q else 2})
+    out.append({"kind": "pump-sched", "gran": "line", "bound": 3 if q else 4, "ncmd": 3})
+    out.append({"kind": "pump-sched", "gran": "opcode", "bound": 1 if q else 2, "ncmd": 2})
     for i in range(6 if q else 16):
         out.append({"kind": "producers", "seed": seed, "i": i, "producers": 2 + i % 5, "per": 1000 if q else 5000})
     return out
@@ -136,6 +138,94 @@ def run_sched(job, res):
         ex.uninstall()
 
 
+def run_pump_sched(job, res):
+    """Producer thread vs. the real poll loop under the controlled scheduler: exactly once, in queue order."""
+    import mysensors.task as mtask
+    from mysensors import BaseSyncGateway
+    from ..fakes import Patched
+    from ..linesched import Explorer
+
+    codes = [mtask.SyncTasks._poll_queue.__code__, mtask.Tasks.run_job.__code__, mtask.SyncTasks.add_job.__code__]
+    ex = Explorer(codes, "line" if job["gran"] == "line" else "instr")
+    NCMD = job.get("ncmd", 3)
+
+    class T:
+        def __init__(self):
+            self.log = []
+            self.can_log = False
+
+        def send(self, m):
+            if m:
+                self.log.append(m)
+
+        def connect(self):
+            pass
+
+        def disconnect(self):
+            pass
+
+    def make(explorer):
+        t = T()
+        gw = BaseSyncGateway(t)
+        tasks = gw.tasks
+        state = {"sleeps": 0}
+
+        class FakeTime:
+            def __getattr__(self, n):
+                return getattr(time, n)
+
+            @staticmethod
+            def sleep(dt):
+                state["sleeps"] += 1
+                if state["sleeps"] >= 3:
+                    tasks._stop_event.set()
+
+        ctx = {"t": t, "tasks": tasks, "gw": gw, "time": FakeTime()}
+
+        def producer():
+            for k in range(NCMD):
+                tasks.add_job(str, f"cmd-{k}\n")
+
+        def pump():
+            with Patched((mtask, "time", ctx["time"])):
+                tasks._poll_queue()
+        return producer, pump, ctx
+
+    ex.install()
+    try:
+        n_inter = 0
+        for run, ctx, stuck, sched in ex.explore(make, job["bound"]):
+            res.evals += 1
+            res.count("pump_schedules")
+            case = {"kind": "pump-sched", "gran": job["gran"], "schedule": sched, "bound": job["bound"]}
+            if stuck:
+                res.count("stuck_schedules")
+                continue
+            if "B" in run.errors:
+                exc = run.errors["B"]
+                res.violation(f"pump-raises:{core.exc_sig(exc)}", f"the poll loop raised {type(exc).__name__}: {exc} under schedule {sched}", case)
+                continue
+            if "A" in run.errors:
+                exc = run.errors["A"]
+                res.violation(f"add-job-raises:{core.exc_sig(exc)}", f"add_job raised {type(exc).__name__}: {exc} under schedule {sched}", case)
+                continue
+            tasks, t = ctx["tasks"], ctx["t"]
+            # whatever is still queued when the simulated pump stopped is sent by a final fault-free round
+            while tasks.queue:
+                t.send(tasks.run_job())
+            want = [f"cmd-{k}\n" for k in range(NCMD)]
+            if t.log != want:
+                kind = "lost" if len(t.log) < NCMD else "duplicated" if len(t.log) > NCMD else "reordered"
+                res.violation(f"queued-command-{kind}", f"producer queued {want!r}; written {t.log!r} under schedule {sched}", case)
+            if run.switches:
+                n_inter += 1
+                res.nontrivial(("pump", job["gran"], sched["first"], tuple(i for i, c in enumerate(sched["choices"]) if c)))
+        res.count("pump_schedules_with_real_interleaving", n_inter)
+        res.sample({"kind": "pump-sched", "gran": job["gran"], "bound": job["bound"], "commands": NCMD})
+    finally:
+        ex.uninstall()
+
+
 def run_producers(job, res):
     """Several producers queue tagged commands; the real poll thread must send each exactly once, per-producer FIFO."""
     import sys
@@ -225,6 +315,8 @@ def run(job):
     res = Result()
     if job["kind"] == "sched":
         run_sched(job, res)
+    elif job["kind"] == "pump-sched":
+        run_pump_sched(job, res)
     else:
         run_producers(job, res)
     return res
@@ -232,7 +324,9 @@ def run(job):
 
 def replay(case):
     res = Result()
-    if case["kind"] == "sched":
+    if case["kind"] == "pump-sched":
+        r = run({"kind": "pump-sched", "gran": case["gran"], "bound": case.get("bound", 2), "ncmd": 3})
+    elif case["kind"] == "sched":
         r = run({"kind": "sched", "scenario": case["scenario"], "write_fails": case["write_fails"], "gran": case["gran"], "bound": 2})
     else:
         r = run({"kind": "producers", "seed": 0, "i": 0, "producers": case["producers"], "per": case["per"]})
@@ -249,12 +343,14 @@ def finish(agg, tier):
                 "succeeding or raising OSError. All schedules with at most `bound` preemptions at source-line granularity (quick 2, "
                 "thorough 3) plus opcode granularity (quick 1, thorough 2), both start orders; the transport lock is scheduler-aware. "
                 "Oracle per schedule: no exception out of send, command written at most once and completely, never to a closed "
-                "connection (the fake refuses). Producers x pump: 2-6 real producer threads and the real poll thread (switch interval "
+                "connection (the fake refuses). Producer vs. the real poll loop (_poll_queue / run_job / add_job) under the same scheduler: "
+                "every queued command written exactly once and in queue order. Producers x pump: 2-6 real producer threads and the real poll thread (switch interval "
                 "10 us) checked by an exactly-once / per-producer-FIFO log checker. distinct = (scenario, write outcome, granularity, "
                 "start thread, switch positions); non-trivial when the schedule really switched inside both bodies.",
         "exhaustive": True,
         "floors": [("schedules", c.get("schedules", 0), 1500), ("schedules_with_real_interleaving", c.get("schedules_with_real_interleaving", 0), 1000),
-                   ("commands_written", c.get("commands_written", 0), 4000)],
+                   ("commands_written", c.get("commands_written", 0), 4000),
+                   ("pump_schedules_with_real_interleaving", c.get("pump_schedules_with_real_interleaving", 0), 300)],
         "assumptions": ["exhaustive below the stated preemption bound only; preemption points are source lines / opcodes of the transport "
                         "and protocol methods (library code they call is atomic for the scheduler)"],
         "show": ["schedules", "schedules_with_real_interleaving", "writes_observed", "dropped_sends", "event_side_exceptions", "commands_queued", "commands_written"],
